@@ -43,18 +43,22 @@ def run(ctx):
     # design checks of the spec itself (in the background while the Go driver runs)
     mc = {}
 
-    def design():
+    def design(which):
         try:
-            mc["pos"] = ctx.tlc("Fn_BucketsMC", cfg="Fn_BucketsMC.cfg", workers=1, deadlock=False, timeout=900, name="mc")
-            mc["neg"] = ctx.tlc("Fn_BucketsMC", cfg="Fn_BucketsMC_twin.cfg", workers=1, deadlock=False, timeout=900, name="mc_twin", allow_violation=True)
+            if which == "pos":
+                mc["pos"] = ctx.tlc("Fn_BucketsMC", cfg="Fn_BucketsMC.cfg", workers=1, deadlock=False, timeout=900, name="mc")
+            else:
+                mc["neg"] = ctx.tlc("Fn_BucketsMC", cfg="Fn_BucketsMC_twin.cfg", workers=1, deadlock=False, timeout=900, name="mc_twin", allow_violation=True)
         except Exception as e:  # noqa
             mc["exc"] = e
-    th = threading.Thread(target=design)
-    th.start()
+    ths = [threading.Thread(target=design, args=(w,)) for w in ("pos", "neg")]
+    for th in ths:
+        th.start()
     try:
         out = ctx.go_test("cmd/restic", "^TestVerif_C52$", timeout=1800)
     finally:
-        th.join()
+        for th in ths:
+            th.join()
     if "exc" in mc:
         raise mc["exc"]
     if "assumption" not in mc["neg"]["violated"]:
